@@ -131,7 +131,14 @@ def _norm_slice(k, n):
 
     def fix(v):
         if isinstance(v, SymInt):
+            sv = z3.simplify(v.e)
+            if z3.is_bv_value(sv):
+                return sv.as_long()
             # fork on min(v, n): values 0..n-1 individually, else >= n
+            if n > 64:
+                if bool(v >= n):
+                    return n
+                return v.concretize()
             for cand in range(0, n):
                 if bool(v == cand):
                     return cand
